@@ -493,6 +493,9 @@ impl Prop for C19 {
     fn watchdog(&self) -> Option<Duration> {
         Some(Duration::from_secs(400))
     }
+    fn hang_is_violation(&self) -> bool {
+        true
+    }
     fn strategy(&self, _tier: Tier) -> BoxedStrategy<Case> {
         let lat = prop_oneof![14 => gen::latitude(64.0), 2 => gen::latitude(90.0), 1 => prop_oneof![Just(90.0), Just(-90.0), Just(-0.5), Just(-33.25)]].boxed();
         let site = (lat, gen::longitude(), gen::elevation(), prop_oneof![3 => -12.0..=12.0f64, 3 => (-12..=12i32).prop_map(|h| h as f64), 1 => prop_oneof![Just(12.0), Just(-12.0), Just(-3.5)]])
